@@ -136,6 +136,25 @@ class Sched:
                 out.append(t)
         return out
 
+    def enabled_raw(self, skip: Any = None) -> list:
+        """Enabled threads other than `skip`, without evaluating `skip`'s own predicate (used by predicates that
+        wait for the rest of the system to fall idle)."""
+        out = []
+        for t in self.threads:
+            if t is skip or t.done or t.dead or t.pred is None:
+                continue
+            if getattr(t, '_in_pred', False):
+                continue
+            t._in_pred = True
+            try:
+                if t.pred():
+                    out.append(t)
+            except Exception:
+                out.append(t)
+            finally:
+                t._in_pred = False
+        return out
+
     def run(self) -> str:
         """Runs until quiescence (no enabled thread) or the step horizon. Returns the reason.
 
